@@ -18,6 +18,14 @@ impl Out {
     pub fn create(path: &str) -> Out {
         Out(BufWriter::new(File::create(path).unwrap_or_else(|e| panic!("create {path}: {e}"))))
     }
+    pub fn append(path: &str) -> Out {
+        Out(BufWriter::new(
+            std::fs::OpenOptions::new().create(true).append(true).open(path).unwrap_or_else(|e| panic!("open {path}: {e}")),
+        ))
+    }
+    pub fn flush(&mut self) {
+        self.0.flush().unwrap();
+    }
     pub fn emit(&mut self, v: &Value) {
         serde_json::to_writer(&mut self.0, v).unwrap();
         self.0.write_all(b"\n").unwrap();
